@@ -234,6 +234,13 @@ impl Kernel for World {
         self.sleeps.push(ns);
         let before = self.now;
         self.now += ns + self.rng.below(self.jitter_max + 1);
+        // a sleep that comes after no status check at all since the previous sleep: the library is napping its way to a far
+        // deadline without looking (each nap is <= 100 ms, the deadline may be weeks away).  After a few thousand of those the
+        // clock is moved to the far future so that the operation ends; the oracles see the run of unchecked naps.
+        let unchecked = self.calls.len() >= 2 && self.calls[..self.calls.len() - 1].iter().rev().take_while(|c| !c.starts_with("wp:")).filter(|c| c.starts_with("sleep:")).count() >= 3000;
+        if unchecked {
+            self.now = self.now.saturating_add(1u64 << 62);
+        }
         self.note_progress(before);
         self.resps.push("ok".into());
         Ans::Ret(())
@@ -592,6 +599,21 @@ fn run_case(c: &Case) -> CaseResult {
                         if let (Some(sl), wp) = (last_sleep, last_wp) {
                             if wp.map_or(true, |i| i < sl) {
                                 oracle.push(("C11".into(), format!("wait_timeout({} ns) reported 'still running' although the child had exited during its last nap: no status check followed that nap", d)));
+                            }
+                        }
+                    }
+                    // every nap is preceded by a status check that found the child still running: once a check has been answered
+                    // with the child's pid or with ECHILD the call must return, not go on napping
+                    {
+                        let mut seen_end: Option<String> = None;
+                        for (cl, rs) in new_calls.iter().zip(w.resps[w.resps.len() - new_calls.len()..].iter()) {
+                            if cl.starts_with("wp:") && (rs == "err:10" || rs.starts_with(&format!("wp:{}:", CANON_PID))) {
+                                seen_end = Some(rs.clone());
+                            } else if cl.starts_with("sleep:") {
+                                if let Some(ans) = &seen_end {
+                                    oracle.push(("C11".into(), format!("wait_timeout({} ns) went on napping after a status check had told it that the child is gone (answer {})", d, ans)));
+                                    break;
+                                }
                             }
                         }
                     }
